@@ -10,6 +10,7 @@ EXPLANATION = (
     "fsynced, and the manifest it logs is dominated by successful writes of segments, properties and statistics. Whether the unsynced page file matters "
     "is a power-loss question outside this property (listed as an observation). Content equality with a transactional load is not decided."
     " C30.3: no segment builder iterates a set of edge keys (or dedups the edge vector) into a segment — relationships are a multiset."
+    " C30.4: the bulk loader's external -> internal id map is only accessed by key."
 )
 
 
